@@ -29,6 +29,25 @@ func sanitize(id string) string {
 	return sb.String()
 }
 
+// msgString renders an assertion message; symbolic bytes are shown as '?'.
+func msgString(v value) string {
+	switch s := v.(type) {
+	case string:
+		return s
+	case *symstr:
+		b := make([]byte, len(s.b))
+		for k, e := range s.b {
+			if c, ok := e.(uint8); ok {
+				b[k] = c
+			} else {
+				b[k] = '?'
+			}
+		}
+		return string(b)
+	}
+	return ""
+}
+
 func idArg(v value) string {
 	s, ok := v.(string)
 	if !ok {
@@ -91,12 +110,12 @@ func init() {
 			return nil, true
 		},
 		"Assert": func(fr *frame, a []value) (value, bool) {
-			msg, _ := a[1].(string)
+			msg := msgString(a[1])
 			fr.i.assert(a[0], msg, siteOf(fr))
 			return nil, true
 		},
 		"Fail": func(fr *frame, a []value) (value, bool) {
-			msg, _ := a[0].(string)
+			msg := msgString(a[0])
 			if !fr.i.p.replaying() {
 				fr.i.violation("assert", msg, siteOf(fr), fr.i.currentModel(), "")
 			}
